@@ -580,7 +580,7 @@ def generate(ctx):
     rng = ctx.rng
     batches = []
     for b in range(ctx.n(1, 6)):
-        nsig = ctx.n(44, 110)
+        nsig = ctx.n(56, 110)
         sigs = [gen_sig(rng, i) for i in range(nsig)]
         # directed: one signature per integer type echoing its argument, so every bound is exercised
         for t in sorted(cc.INTS) + ['_Bool', 'char', 'wchar_t', 'char16_t', 'float', 'double', 'long double']:
@@ -591,7 +591,7 @@ def generate(ctx):
                 for v, cat in directed_values(sigs[si]["args"][0]):
                     calls.append(dict(id=len(calls), sig=si, args=[v], plen=[0] * 8, errno=rng.choice([0, 7, 4000]), cats=[cat]))
                 continue
-            for _ in range(ctx.n(6, 12)):
+            for _ in range(ctx.n(7, 12)):
                 calls.append(gen_call(rng, sigs, si, len(calls)))
         batches.append(dict(kind="batch", tag="b%d" % b, sigs=sigs, calls=calls))
     return batches
